@@ -219,7 +219,7 @@ def c_plug_lifecycle(ts: int, cf: int, ta: int, tb: int, tc: int, i1: int, v1: i
 @cond(timeout=120, expect='refute')
 def w_teardown_hang_and_raise(ta: int, tb: int, tc: int) -> bool:
   """
-  pre: 0 <= ta <= 2 and 0 <= tb <= 2 and 0 <= tc <= 2
+  pre: 0 <= ta <= 2 and 0 <= tb <= 2 and tc == 0
   post: _
   """
   H.reset_globals()
@@ -232,4 +232,4 @@ def w_teardown_hang_and_raise(ta: int, tb: int, tc: int) -> bool:
     CONF.reset()
     FAULT['td'] = (0, 0, 0)
   tds = [e[1] for e in LOG if e[0] == 'td']
-  return not (ret is True and ta == 2 and tb == 1 and tds == [1, 2])
+  return not (ret is True and ta == 2 and tb == 1 and sorted(tds) == [1, 2])    # order-independent: tear-down order follows set iteration order
